@@ -295,9 +295,10 @@ def gen_array(c, s, tag):
     return arr, AND(*r), "%s <= 0" % n
 
 
-def gen_map(c, s, tag):
+def gen_map(c, s, tag, ptr_values=False):
     vs = dict(s["additionalProperties"])
-    vs["_mapvalue"] = True
+    if not ptr_values:
+        vs["_mapvalue"] = True
     st = c.fresh("st")
     n = c.fresh("n")
     c.emit('%s := vInt("%s.state", 0, %d)' % (st, tag, MAXN + 1))
@@ -358,6 +359,9 @@ def gen_prop(c, ps, tag, required, k):
     if k in ("scalar", "refscalar"):
         e, r, z = gen_value(c, ps, tag)
         nullable = ps.get("x-nullable", False)
+        if required and ps.get("readOnly") and not nullable:
+            # required + readOnly: a plain value whose zero value counts as absent (documented difference)
+            return e, AND(NOT(z), r), z
         if required or nullable:
             has = c.fresh("has")
             c.emit('%s := vBool("%s.present")' % (has, tag))
@@ -407,7 +411,10 @@ def gen_object(c, s, tag, tname):
         return "%s{%s}" % (tname, ", ".join(inits)), AND(*r), AND(*zs)
     f, r, z = gen_fields(c, s, tag)
     if "additionalProperties" in s:
-        raise Exception("mixed objects not supported yet")
+        # mixed object: the extra members live in a map field named after the type
+        me, mr, mz = gen_map(c, {"type": "object", "additionalProperties": s["additionalProperties"]}, tag + ".extra", ptr_values=True)
+        f.append("%s: %s" % (tname, me))
+        r = AND(r, mr)
     return "%s{%s}" % (tname, ", ".join(f)), r, z
 
 
@@ -498,6 +505,13 @@ def build():
         if f:
             leaf["format"] = f
         contexts("enum", "%s/%s enum" % (t, f or "-"), leaf, "AuxEnum%d" % k)
+    # integer multipleOf
+    for (t, f) in [("integer", "int32"), ("integer", ""), ("integer", "uint32")]:
+        k += 1
+        leaf = {"type": t, "multipleOf": 3, "maximum": 9}
+        if f:
+            leaf["format"] = f
+        contexts("multiple", "%s/%s multipleOf 3" % (t, f or "-"), leaf, "AuxMul%d" % k)
     # item counts
     for vn, v in [("minItems 1", {"minItems": 1}), ("maxItems 1", {"maxItems": 1}), ("maxItems 0", {"maxItems": 0}), ("minItems 2", {"minItems": 2}),
                   ("uniqueItems", {"uniqueItems": True})]:
@@ -527,6 +541,15 @@ def build():
     add_case("object", "allOf of a $ref and an inline member", {"allOf": [inner, {"type": "object", "required": ["x"], "properties": {"x": {"type": "integer", "format": "int32", "minimum": 1}, "y": {"type": "string", "maxLength": 1}}}]})
     outer = add_def("Outer", {"type": "object", "required": ["i"], "properties": {"i": inner}})
     add_case("object", "two levels of $ref objects", {"type": "object", "properties": {"o": outer}})
+    add_case("object", "declared properties next to constrained additionalProperties", {"type": "object", "required": ["a"], "properties": {
+        "a": {"type": "integer", "format": "int32", "minimum": 1}, "b": {"type": "string", "maxLength": 2}},
+        "additionalProperties": {"type": "integer", "format": "int32", "maximum": 7}})
+    add_case("object", "declared properties next to additionalProperties of $ref objects", {"type": "object", "properties": {
+        "a": {"type": "string", "minLength": 1}}, "additionalProperties": inner})
+    add_case("object", "required properties that are readOnly or have a default", {"type": "object", "required": ["r", "d", "s"], "properties": {
+        "r": {"type": "string", "readOnly": True, "minLength": 2},
+        "d": {"type": "integer", "default": 5, "minimum": 2},
+        "s": {"type": "string", "default": "xy", "maxLength": 3}}})
     add_case("object", "several properties of every kind", {"type": "object", "required": ["a", "c"], "properties": {
         "a": {"type": "integer", "format": "int32", "minimum": 0, "exclusiveMinimum": True},
         "b": {"type": "number", "maximum": 1.5},
@@ -721,6 +744,28 @@ def write_c18():
     with open(out, "w") as f:
         f.write("\n".join(L))
     print("wrote", out)
+    # the witnesses of the round-trip findings are case indices: keep them in step with the table
+    kf_path = os.path.join(ROOT, "known_findings.json")
+    kf = json.load(open(kf_path))
+    lst = kf["findings"] if isinstance(kf, dict) else kf
+    allc = CASES + RT_ONLY
+
+    def first(pred):
+        for i, c in enumerate(allc):
+            if pred(c):
+                return i
+        return None
+    want = {
+        "C18-R1": first(lambda c: c.desc.endswith("as a named definition") and c.family == "numeric"),
+        "C18-R2": first(lambda c: "as items of a named array" in c.desc),
+        "C18-R3": first(lambda c: "as values of a named map" in c.desc),
+        "C18-R4": first(lambda c: "allOf of a $ref" in c.desc),
+        "C18-R5": first(lambda c: "next to constrained additionalProperties" in c.desc),
+    }
+    for k in lst:
+        if k["id"] in want and want[k["id"]] is not None:
+            k["witness"] = ["c:%d" % want[k["id"]]]
+    json.dump(kf, open(kf_path, "w"), indent=1)
 
 
 if __name__ == "__main__":
